@@ -23,6 +23,7 @@ ASSUMPTIONS = [
 ]
 REQUIRED = ["unlisted_words_in_enumerated_attributes", "nodes_below_a_real_parent", "domain_words_in_free_form_attributes", "validations_on_long_lived_node", "rule_table_unchanged_after_queries", "aliasing_probes", "assignments_valid", "assignments_invalid", "introspection_required_checked", "introspection_values_checked",
             "viol_required", "viol_unrecognized", "viol_enum"]
+THREAD_HAMMER = "full"      # (mode T side shards: the hammering threads also import, load and copy documents of their own)
 EXHAUSTIVE = {"quick": True, "thorough": True}
 
 ABSENT = ("absent",)
